@@ -584,6 +584,23 @@ func (fr *frame) instr(b *ssa.BasicBlock, idx int, in ssa.Instruction, st *State
 			t, _ := fc.load(st, a)
 			n := fr.define(in, t)
 			fr.loadedAssume(n, in.Type(), st)
+			// heap well-formedness at entry: a reference read from a field of an object that existed at entry, out of a
+			// component nobody has written since entry, was allocated before the function started
+			if a.kind == 2 && len(a.path) == 1 && !a.path[0].isIdx && fc.entry != nil {
+				if _, isS := a.T.Underlying().(*types.Struct); isS {
+					k, _ := fc.fieldComp(a.T, a.path[0].field)
+					if cur, ent := fc.lookup(st, k), fc.lookup(fc.entry, k); cur == ent {
+						top0 := fc.entry.comp["TOP"]
+						switch in.Type().Underlying().(type) {
+						case *types.Pointer, *types.Map:
+							fc.fact("", "(=> (< %s %s) (< %s %s))", a.ref, top0, n, top0)
+						case *types.Interface:
+							fc.P.needTagof()
+							fc.fact("", "(=> (< %s %s) (< (ptrin %s) %s))", a.ref, top0, n, top0)
+						}
+					}
+				}
+			}
 			if _, isSlice := in.Type().Underlying().(*types.Slice); isSlice && a.kind != 3 {
 				fr.loadedFrom[in] = &loadedFrom{a: a, term: t}
 			}
